@@ -108,7 +108,7 @@ def run(ctx, chk):
     G = ctx.gram("print")
     chk.rule("C17.R1", "each printed label names the register/flag whose value follows it, in the documented format", floor=24)
     chk.rule("C17.R2", "printing can only read the machine", floor=4)
-    chk.rule("C17.R3", "memory ranges: closed forms of start/end, every index < 2^20", floor=7)
+    chk.rule("C17.R3", "memory ranges: closed forms of start/end, every index < 2^20", floor=10)
     chk.rule("C17.R4", "program statement and prompt use the same print parser", floor=2)
     chk.rule("C17.R5", "assembler validates and forwards print statements unchanged", floor=3)
     chk.rule("C17.R6", "16 bytes per row (finite-state column counter)", floor=3)
@@ -355,6 +355,19 @@ def run(ctx, chk):
             elif ":" in terms and len(nums) == 1:
                 form = ("16*ds", f"16*ds + (({nums[0]}) mod 2^20)")
                 doc = ": n: bytes 16*DS..=16*DS+n"
+            # the last byte printed is the (inclusive) end of the range: it must lie inside the 1 MB space on the
+            # path that reaches the loop (a range that leaves the space has to be diverted before)
+            last = e_ if ranges else None
+            if last is not None and last.kind == "int":
+                if last.hi <= (1 << 20) - 1:
+                    chk.ok("C17.R3", f"{label}:end-in-space", f"range end <= {last.hi:#x} on the printing path")
+                elif last.exact:
+                    chk.violation("C17.R3", label, "range-end-can-leave-1MB",
+                                  f"{label}: the printing loop is reached with an inclusive end of up to {last.hi:#x} (attainable): the guard before the loop lets a range through "
+                                  f"whose last byte is outside the 1 MB space (index out of bounds instead of a diagnostic)", where,
+                                  f"end = {last.aff.pretty() if last.aff is not None else '?'} = {last.hi:#x}")
+                else:
+                    chk.undecided_("C17.R3", f"{label}:end-in-space", f"range end interval [{last.lo},{last.hi}] not exact")
             if form is None or sa is None or ea is None:
                 chk.undecided_("C17.R3", label, f"range ends {sa} / {ea} have no closed form")
             elif (sa, ea) == form:
